@@ -48,6 +48,14 @@ impl SwiftField for Field53A {
         }
 
         // Parse BIC code
+        if lines.len() > line_idx + 1 {
+            return Err(ParseError::InvalidFormat {
+                message: format!(
+                    "Field 53A has {} line(s) after the BIC",
+                    lines.len() - line_idx - 1
+                ),
+            });
+        }
         let bic = parse_bic(lines[line_idx])?;
 
         Ok(Field53A {
@@ -191,6 +199,12 @@ impl SwiftField for Field53D {
 
             if looks_like_party_id && !first_line.is_empty() && lines.len() > 1 {
                 // Entire first line is party identifier
+                if first_line.len() > 37 {
+                    return Err(ParseError::InvalidFormat {
+                        message: "Field 53D party identifier exceeds /1!a/34x".to_string(),
+                    });
+                }
+                parse_swift_chars(first_line, "Field 53D party identifier")?;
                 party_identifier = Some(first_line.to_string());
                 lines.remove(0);
             }
